@@ -370,6 +370,15 @@ class RedisStore(MutableMapping):
         Handles key invalidation messages sent by the Redis server.
         """
         keys = message["data"]  # This will contain an array of invalidated keys.        
+        """
+        Ignore anything that isn't an array of keys, in particular the dummy
+        message that the stop() method of *any* RedisStore connected to the
+        same server publishes to unblock its own listener and the null data
+        that the server sends when the whole keyspace is flushed.
+        """
+        if not isinstance(keys, (list, tuple)):
+            return
+
         for k in keys:
             # Keys are passed as an array of binary strings, with prefixes.
             key = self._remove_prefix(k.decode("utf-8"))
